@@ -383,6 +383,10 @@ func (re *Regexp) findAllRunesIndex(runner *Runner, input []rune, startAt, n int
 		startAt = m.textpos
 		previousMatchLength = m.RuneLength
 	}
+	if len(out) == 0 {
+		// no match is nil for every n, like the regexp package
+		return nil, nil
+	}
 	return out, nil
 }
 
